@@ -273,6 +273,44 @@ def key_of(sc):
             f"ps={m['path_sub']}:dc={m['decoys']}:tw={m['tweak']}")
 
 
+def reached_twice(v, base):
+    """`Each such file is formatted once even if reached twice': crates in which one file is
+    reached through two declarations, under the same or another spelling of its path.  Observed
+    through `--check -l` (one line per formatted file that differs): after resolving the
+    spellings every real file is listed exactly once."""
+    rustfmt = core.bin_path("rustfmt")
+    ugly = "fn  k( ) { }\n"
+    shapes = {
+        "same_path_attr": 'mod b;\n#[path = "b.rs"]\nmod c;\n',
+        "dot": 'mod b;\n#[path = "./b.rs"]\nmod c;\n',
+        "dotdot_after": 'mod b;\n#[path = "../src/b.rs"]\nmod c;\n',
+        "dotdot_before": '#[path = "../src/b.rs"]\nmod c;\nmod b;\n',
+        "dotdot_both": '#[path = "../src/b.rs"]\nmod c;\n#[path = "sub/../b.rs"]\nmod d;\n',
+        "inline_dotdot": 'mod b;\nmod i {\n    #[path = "../b.rs"]\n    mod c;\n}\n',
+        "cfg_attr_twice": '#[cfg_attr(unix, path = "b.rs")]\n#[cfg_attr(windows, path = "b.rs")]\nmod b;\n',
+    }
+    n = 0
+    for name, root in shapes.items():
+        d = base / f"twice-{name}"
+        (d / "src" / "sub").mkdir(parents=True)
+        (d / "src" / "i").mkdir()
+        (d / "src" / "lib.rs").write_text(root + ugly)
+        (d / "src" / "b.rs").write_text(ugly)
+        r = subprocess.run([rustfmt, "--edition", "2021", "--check", "-l", str(d / "src" / "lib.rs")],
+                           cwd=d, env=core.run_env({"HOME": str(d)}), capture_output=True, text=True,
+                           timeout=60)
+        n += 1
+        listed = [str(Path(ln.strip()).resolve()) for ln in r.stdout.split("\n") if ln.strip()]
+        want = sorted([str((d / "src" / "lib.rs").resolve()), str((d / "src" / "b.rs").resolve())])
+        if sorted(listed) != want or r.returncode != 1:
+            v.violation(f"twice:{name}",
+                        f"a file reached twice ({name}): --check -l lists "
+                        f"{[x.replace(str(d.resolve()) + '/', '') for x in sorted(listed)]}, every file "
+                        f"is expected exactly once (exit {r.returncode})",
+                        {"root": root, "stdout": r.stdout[-800:], "stderr": r.stderr[-800:]})
+    return n
+
+
 def run(tier, seed, replay=None):
     v = Verdict("C13", tier, seed)
     rng = random.Random(seed)
@@ -329,6 +367,7 @@ def run(tier, seed, replay=None):
                             f"{'left out' if r['ignored'] else 'formatted'}, the patterns say "
                             f"{'ignored' if f['want'] else 'not ignored'}",
                             {"record": {k: r[k] for k in r if k != "pats"}})
+        n_twice = reached_twice(v, base)
         o2 = [{"events": o["events"], "roots": [], "mode": "files", "fl": {},
                "tag": key_of(s), "argv": []} for s, o in zip(sel, obs)]
         t_ok, t_rej, tstates = ptrace.validate(o2, base)
@@ -353,7 +392,7 @@ def run(tier, seed, replay=None):
                    "x tweaks (ambiguous pair, missing file, skip attributes, cfg_if, empty "
                    "directory, skip_children, ignore, @generated); all scenarios distinct by construction",
            "universe": len(uni), "model_walk_differs_from_rule": n_model_diff,
-           "ignore_runs": iruns, "ignore_records": len(irecs),
+           "reached_twice_runs": n_twice, "ignore_runs": iruns, "ignore_records": len(irecs),
            "ignore_records_ignored": sum(1 for r in irecs if r["ignored"]), "ignore_states": istates,
            "trace_states": tstates, "exhaustive": tier == "thorough"}
     cov.update(suite_cov)
